@@ -137,12 +137,15 @@ SubsetClauses(e) ==
        THEN [WellFormed |-> FALSE]
   ELSE LET F == e.Bfull  S == e.Bsub IN
        [NoUnexpectedError |-> TRUE, WellFormed |-> TRUE,
+        \* the cells of the restricted basis are the requested cells of the full basis, each with its DOFs, weights and
+        \* basis values -- as a bag: C01 does not fix the order in which a basis keeps its cells
         SubsetRestricts |->
           /\ S.nel = Len(e.tind) /\ S.nb = F.nb /\ S.N = F.N /\ S.nc = F.nc /\ S.nq = F.nq
           /\ S.sphi = F.sphi /\ S.sdx = F.sdx
-          /\ \A k \in 1..S.nel : /\ \A j \in 1..S.nb : S.edofs[j][k] = F.edofs[j][e.tind[k]]
-                                 /\ S.dx[k] = F.dx[e.tind[k]]
-                                 /\ \A j \in 1..S.nb : \A c \in 1..S.nc : S.phi[j][c][k] = F.phi[j][c][e.tind[k]]]
+          /\ LET sig(B, k) == <<[j \in 1..B.nb |-> B.edofs[j][k]], B.dx[k], [j \in 1..B.nb |-> [c \in 1..B.nc |-> B.phi[j][c][k]]]>>
+                  got  == TLCEval([k \in 1..S.nel |-> sig(S, k)])
+                  want == TLCEval([k \in 1..S.nel |-> sig(F, e.tind[k])])
+              IN \A k \in 1..S.nel : Cardinality({k2 \in 1..S.nel : got[k2] = got[k]}) = Cardinality({k2 \in 1..S.nel : want[k2] = got[k]})]
 
 \* a facet basis takes its DOFs from the cell on the requested side of each facet
 FacetClauses(e) ==
@@ -225,8 +228,9 @@ NormalClauses(e) ==
           @@ (IF e.planar = 1
               THEN [NormalOrthogonal |-> \A k \in DOMAIN e.fac : \A q \in DOMAIN e.fac[k].n : \A j \in DOMAIN e.fac[k].t :
                         FX!FxNear(FxDotInt(e.fac[k].n[q], e.fac[k].t[j]), FX!FxZero, FX!FxMulSmall(TolGeom, AbsSum(e.fac[k].t[j]) + 1)),
-                    \* points away from the cell that owns the facet (f2t[0])
-                    NormalOutward |-> \A k \in DOMAIN e.fac : \A q \in DOMAIN e.fac[k].n :
+                    \* on BOUNDARY facets the normal points out of the domain (away from the only cell of the facet); which
+                    \* of the two cells an interior facet's normal leaves is a convention the property does not fix
+                    NormalOutward |-> e.interior = 1 \/ \A k \in DOMAIN e.fac : \A q \in DOMAIN e.fac[k].n :
                         LET d == FxDotInt(e.fac[k].n[q], e.fac[k].out) IN
                         FX!FxIsNonNeg(d) /\ ~FX!FxNear(d, FX!FxZero, FX!FxMulSmall(TolGeom, AbsSum(e.fac[k].out) + 1))]
               ELSE <<>>)
